@@ -49,6 +49,12 @@ Proof. exact fuel_enough. Qed.
 (* the package name is an identifier whatever the profile is called *)
 Theorem C07_package_name : forall s, all_ident (package_name s) = true.
 Proof. exact package_name_is_identifier. Qed.
+(* the statements the translator appends to every rule body (trace bindings, placeholder lookups, message, result) read only
+   variables bound by an earlier one of them, for any number of constraints and placeholders: none is unsafe *)
+Theorem C07_rule_tail_is_safe : forall k m head, safe_from [] (tail_stmts k m head) = true.
+Proof. exact tail_stmts_safe. Qed.
+Theorem C07_rule_tail_declares : forall k m head, map fst (tail_stmts k m head) = declared k m head.
+Proof. exact tail_stmts_declare. Qed.
 (* the two literals whose first versions did not compile (repaired defects): every regular expression - with backticks,
    quotes, backslashes, newlines - is written as a string literal the engine reads back as exactly that text; every value
    list, the empty one included, is written as a SET literal (`{ }` would be the empty object) *)
@@ -87,6 +93,8 @@ Print Assumptions C07_numbered_names_distinct.
 Print Assumptions C07_declarations_distinct.
 Print Assumptions C07_generator_terminates.
 Print Assumptions C07_package_name.
+Print Assumptions C07_rule_tail_is_safe.
+Print Assumptions C07_rule_tail_declares.
 Print Assumptions C07_pattern_literal.
 Print Assumptions C07_value_list_is_a_set.
 Print Assumptions C07_refuted_before_fixes.
